@@ -11,6 +11,7 @@ import (
 	"fmt"
 	"io"
 	"math/rand/v2"
+	"os"
 	"sort"
 	"sync"
 	"testing/synctest"
@@ -56,10 +57,25 @@ type Link struct {
 	Delivered int
 	lastPending int
 	AcceptedAt         time.Time
+	DeliveryLog        []Delivery // cumulative bytes delivered to the client after each s2c event
 	ClientClosedAt     time.Time // when the server side noticed that the client had closed the connection
 	UndeliveredAtClose int       // reply bytes the server still had to deliver at that moment
 	EndedAt            time.Time // when the connection ended, whoever ended it
+	EndStep            int       // scheduler step at which it ended (0 = still open)
 	UndeliveredAtEnd   int       // reply bytes that were never delivered
+}
+
+// Delivery records the cumulative number of reply bytes delivered to the client by the end of a step.
+type Delivery struct{ Step, Cum int }
+
+// DeliveredStep returns the step at which the first n bytes of the server's output had been delivered (-1 if never).
+func (l *Link) DeliveredStep(n int) int {
+	for _, d := range l.DeliveryLog {
+		if d.Cum >= n {
+			return d.Step
+		}
+	}
+	return -1
 }
 
 // Parked is a goroutine waiting at a yield point.
@@ -262,6 +278,8 @@ func (l *Locker) Unlock() {
 	s.mu.Unlock()
 }
 
+var liveLog = os.Getenv("VERIF_LIVE") != ""
+
 // Event is one enabled scheduling choice.
 type Event struct {
 	Kind   string
@@ -297,6 +315,9 @@ func (s *Sim) logf(format string, a ...any) {
 	io.WriteString(s.hash, "\n")
 	if s.Cfg.KeepTape {
 		s.Tape = append(s.Tape, line)
+	}
+	if liveLog {
+		println("TAPE", line)
 	}
 }
 
@@ -625,6 +646,7 @@ func (s *Sim) doS2C(l *Link) {
 	b := l.S.Out[:m]
 	l.C.Deliver(b)
 	l.Delivered += m
+	l.DeliveryLog = append(l.DeliveryLog, Delivery{s.Step, l.Delivered})
 	l.S.Out = append([]byte(nil), l.S.Out[m:]...)
 	s.logf("  s2c c%d %d/%d bytes", l.ID, m, n)
 	if l.CutAfter >= 0 {
@@ -639,7 +661,7 @@ func (s *Sim) doS2C(l *Link) {
 func (s *Sim) closeServerSide(l *Link) {
 	l.ClientClosedAt = time.Now()
 	l.UndeliveredAtClose = len(l.S.Out)
-	l.EndedAt, l.UndeliveredAtEnd = time.Now(), len(l.S.Out)
+	l.EndedAt, l.UndeliveredAtEnd, l.EndStep = time.Now(), len(l.S.Out), s.Step
 	l.SrvClosed = true
 	l.Dead = true
 	s.W.CloseConn(l.S)
@@ -673,7 +695,7 @@ func (s *Sim) breakLink(l *Link, kind string, execFirst bool) {
 	if len(l.S.Out) > 0 {
 		s.Stats["fault.lost_reply_bytes"] += len(l.S.Out)
 	}
-	l.EndedAt, l.UndeliveredAtEnd = time.Now(), len(l.S.Out)
+	l.EndedAt, l.UndeliveredAtEnd, l.EndStep = time.Now(), len(l.S.Out), s.Step
 	l.S.Out = nil
 	l.SrvClosed = true
 	l.Dead = true
@@ -773,7 +795,7 @@ func (s *Sim) applyFault(f *Fault) bool {
 		f.Target = fmt.Sprintf("c%d", l.ID)
 		l.C.FailWrite(simnet.ErrPipe)
 		l.C.FailRead(io.EOF)
-		l.EndedAt, l.UndeliveredAtEnd = time.Now(), len(l.S.Out)
+		l.EndedAt, l.UndeliveredAtEnd, l.EndStep = time.Now(), len(l.S.Out), s.Step
 		l.S.Out = nil
 		l.SrvClosed, l.Dead = true, true
 		s.W.CloseConn(l.S)
